@@ -134,6 +134,7 @@ def finite_difference(blk: Module, fromsig: Union[Signal, Iterable[Signal]] = No
 
         # Reset the sensitivities for next output
         blk.reset()
+        Sout.reset()
 
     # Perturb each of the input signals
     for Iin, Sin in enumerate(inps):
